@@ -1,17 +1,82 @@
 package harness
 
 import (
+	"fmt"
 	"testing"
 
 	"pgregory.net/rapid"
 )
 
-var c07SysCfg = SGenCfg{RFs: []int{3, 3, 2}, MinOps: 3, MaxOps: 8, FaultPct: 0, Blocks: 16, FillPct: 70,
-	W: map[string]int{"write": 36, "snapshot": 24, "sysrebuild": 30, "read": 4}}
+// genSysProgram: every program contains at least one rebuild driven by the
+// product's own code (sync.Task.AddReplica, real sync agents and ssync
+// children). The classes that matter are drawn explicitly: how the target left
+// (removed, dropped, never attached), what happened while it was away (nothing,
+// writes only = same chain but another revision, snapshots = another chain),
+// whether it comes back stale or empty, and the foreground writes alongside
+// the transfer.
+func genSysProgram(t *rapid.T) SProgram {
+	rf := rapid.SampledFrom([]int{3, 3, 2}).Draw(t, "rf")
+	nodes := rf
+	spare := rapid.IntRange(0, 3).Draw(t, "spare") == 0
+	if spare {
+		nodes = rf + 1
+	}
+	blocks := 16
+	total := int64(blocks) * 8
+	p := SProgram{RF: rf, Nodes: nodes, Blocks: blocks, Init: rf}
+	wr := func(label string) SOp {
+		off := rapid.Int64Range(0, total-1).Draw(t, label+"off")
+		return SOp{K: "write", Off: off, Len: rapid.Int64Range(1, min64(total-off, 24)).Draw(t, label+"len"), Seed: rapid.IntRange(1, 250).Draw(t, label+"seed")}
+	}
+	if rapid.IntRange(0, 9).Draw(t, "fill") < 7 {
+		p.Ops = append(p.Ops, SOp{K: "write", Off: 0, Len: total, Seed: rapid.IntRange(1, 250).Draw(t, "fillseed")})
+	}
+	for k := rapid.IntRange(0, 3).Draw(t, "prefix"); k > 0; k-- {
+		if rapid.IntRange(0, 2).Draw(t, "pk") == 0 {
+			p.Ops = append(p.Ops, SOp{K: "snapshot", Name: fmt.Sprintf("v%d", len(p.Ops))})
+		} else {
+			p.Ops = append(p.Ops, wr("p"))
+		}
+	}
+	rounds := rapid.IntRange(1, 2).Draw(t, "rounds")
+	for r := 0; r < rounds; r++ {
+		n := rapid.IntRange(0, nodes-1).Draw(t, "target")
+		p.Ops = append(p.Ops, SOp{K: rapid.SampledFrom([]string{"remove", "nodedrop"}).Draw(t, "leave"), Node: n})
+		switch rapid.IntRange(0, 3).Draw(t, "away") {
+		case 0: // nothing happened
+		case 1, 2: // writes only: the chains stay equal, the revision counters differ
+			for k := rapid.IntRange(1, 3).Draw(t, "awaywrites"); k > 0; k-- {
+				p.Ops = append(p.Ops, wr("a"))
+			}
+		default: // snapshots and writes: the chains differ
+			for k := rapid.IntRange(1, 3).Draw(t, "awayops"); k > 0; k-- {
+				if rapid.Bool().Draw(t, "awaysnap") {
+					p.Ops = append(p.Ops, SOp{K: "snapshot", Name: fmt.Sprintf("v%d", len(p.Ops))})
+				} else {
+					p.Ops = append(p.Ops, wr("a"))
+				}
+			}
+		}
+		if rapid.IntRange(0, 2).Draw(t, "freshtarget") == 0 {
+			p.Ops = append(p.Ops, SOp{K: "reconnect", Node: n, Str: "fresh"})
+		}
+		p.Ops = append(p.Ops, SOp{K: "sysrebuild", Node: n, N: int64(rapid.IntRange(0, 12).Draw(t, "fgwrites")), Seed: rapid.IntRange(1, 5000).Draw(t, "seed"),
+			Len: int64(rapid.IntRange(0, 400).Draw(t, "gapms")), Reps: rapid.IntRange(0, 1).Draw(t, "aligned")})
+		for k := rapid.IntRange(0, 2).Draw(t, "suffix"); k > 0; k-- {
+			if rapid.Bool().Draw(t, "sk") {
+				off := rapid.Int64Range(0, total-1).Draw(t, "roff")
+				p.Ops = append(p.Ops, SOp{K: "read", Off: off, Len: rapid.Int64Range(1, min64(total-off, 32)).Draw(t, "rlen"), Reps: rapid.IntRange(1, 4).Draw(t, "reps")})
+			} else {
+				p.Ops = append(p.Ops, wr("s"))
+			}
+		}
+	}
+	return p
+}
 
 // TestC07System — the product's own rebuild (sync.Task.AddReplica, real sync
 // agents and ssync children) with concurrent foreground writes.
 func TestC07System(t *testing.T) {
-	runStackProperty(t, "C07", "TestC07System", func(rt *rapid.T) SProgram { return GenSProgram(rt, c07SysCfg) },
+	runStackProperty(t, "C07", "TestC07System", genSysProgram,
 		func(p SProgram, x *SExec) bool { return x.Labels["sysrebuild:promoted"] > 0 })
 }
